@@ -228,6 +228,80 @@ func genCopyGlobCase(r *Rng) []Op {
 	return ops
 }
 
+// genFullTextOutCase (C05, C16): the text-out accepts the open and fails every write; the
+// report is far larger than its 4 KiB buffer, so printing fails before the command's final
+// Sync: an error, and an existing destination keeps its bytes
+func genFullTextOutCase(r *Rng, prop string) []Op {
+	g := newCmdGen(r, prop)
+	for g.lay.Ns[0] < 400 || g.lay.FileSize() > 200000 {
+		g.lay = genLayout(r, true)
+	}
+	ops := []Op{{"reset", false}}
+	// a dense finest archive: one point per slot
+	st := g.lay.Steps[0]
+	n := g.lay.Ns[0] - 5
+	var pts []string
+	base := g.now - g.now%st
+	for i := 0; i < n; i++ {
+		pts = append(pts, fmt.Sprintf("%d:%s", base-i*st, genVal(r, false)))
+	}
+	mk := func(path string) {
+		ops = append(ops, Op{"use " + path, false}, Op{fmt.Sprintf("create %s %d %08x", g.lay, g.agg, g.xff), false})
+		ops = append(ops, Op{fmt.Sprintf("updmany 0 %d %s", g.now, strings.Join(pts, ",")), false})
+		ops = append(ops, Op{"sync", false}, Op{"drop", false})
+	}
+	if prop == "C11" {
+		mk("src/i1/f0.wsp")
+		mk("src/i1/f1.wsp")
+		ops = g.writeFile(ops, "dst/i1/sum.wsp", g.lay, 0)
+		ops = g.fdisks(ops, true, "dst/i1/sum.wsp")
+		ops = append(ops, Op{fmt.Sprintf("cmd sumcopy items=src/i1/f0.wsp+src/i1/f1.wsp>dst/i1/sum.wsp itempat=i1 srcpat=*.wsp dest=sum.wsp %s archive=-1 from=0 until=0 textout=full", g.opts()), true})
+		ops = g.fdisks(ops, true, "dst/i1/sum.wsp")
+		return ops
+	}
+	mk("src/a.wsp")
+	ops = g.writeFile(ops, "dst/a.wsp", g.lay, r.Intn(2))
+	ops = g.fdisks(ops, true, "dst/a.wsp")
+	ops = append(ops, Op{fmt.Sprintf("cmd copy pairs=src/a.wsp>dst/a.wsp %s copynan=%d archive=-1 from=0 until=0 textout=full", g.opts(), r.Intn(2)), true})
+	ops = g.fdisks(ops, true, "dst/a.wsp")
+	return ops
+}
+
+// genCliFailCase (C05): a CLI write that fails before its final Sync leaves an existing
+// destination's bytes as they were — for each way such a write can fail
+func genCliFailCase(r *Rng) []Op {
+	switch r.Intn(6) {
+	case 0, 1:
+		return genFullTextOutCase(r, "C05")
+	case 2:
+		return genFullTextOutCase(r, "C11")
+	}
+	g := newCmdGen(r, "C05")
+	ops := []Op{{"reset", false}}
+	switch r.Intn(3) {
+	case 0: // the source cannot be read
+		ops = g.writeFile(ops, "src/a.wsp", g.lay, 1)
+		ops = append(ops, Op{"use src/a.wsp", false}, Op{"setdisk " + randHex(r, 1+r.Intn(60)), false})
+		ops = g.writeFile(ops, "dst/a.wsp", g.lay, 1+r.Intn(2))
+	case 1: // layouts differ
+		ops = g.writeFile(ops, "src/a.wsp", g.lay, 1+r.Intn(2))
+		other := genLayout(r, false)
+		if r.Bool() {
+			other = nearLayout(r, g.lay)
+		}
+		ops = g.writeFile(ops, "dst/a.wsp", other, 1+r.Intn(2))
+	default: // a selection that names no archive
+		ops = g.writeFile(ops, "src/a.wsp", g.lay, 1+r.Intn(2))
+		ops = g.writeFile(ops, "dst/a.wsp", g.lay, 1+r.Intn(2))
+		ops = g.fdisks(ops, true, "dst/a.wsp")
+		ops = append(ops, Op{fmt.Sprintf("cmd copy pairs=src/a.wsp>dst/a.wsp %s copynan=%d archive=%d from=0 until=0", g.opts(), r.Intn(2), g.lay.K()+r.Intn(2)), true})
+		return g.fdisks(ops, true, "dst/a.wsp")
+	}
+	ops = g.fdisks(ops, true, "dst/a.wsp")
+	ops = append(ops, Op{fmt.Sprintf("cmd copy pairs=src/a.wsp>dst/a.wsp %s copynan=%d %s", g.opts(), r.Intn(2), g.winAll()), true})
+	return g.fdisks(ops, true, "dst/a.wsp")
+}
+
 // genDiffGlobOrderCase (C09): with a glob every matched file is compared in glob order; a
 // difference (or a missing destination) in an earlier file must not mask a hard error in a
 // later one, nor the reverse
